@@ -192,7 +192,7 @@ pub async fn perform<M: SimMsg, C: ClientOps<M>>(sim: &Sim, client: &mut C, plan
         },
     }
     if let Some(e) = &obs.call_err {
-        sim.ev(|| format!("client: call failed {:?} {:?}", e.code(), e.message()));
+        sim.ev(|| format!("client: call failed {:?} {:?} source={:?}", e.code(), e.message(), std::error::Error::source(e).map(|s| format!("{s:?}"))));
     }
     obs
 }
@@ -235,7 +235,7 @@ pub fn judge<M: SimMsg>(sim: &Sim, plan: &CallPlan, obs: &Observed, log: Option<
             } else {
                 plan.req_msgs.iter().map(|b| M::from_payload(plan.tag, b).canon()).collect()
             };
-            let reads_all = plan.shape == 0 || plan.shape == 2 || (s.read_mode == 0 && !(plan.shape == 3 && s.fail_at_call && s.end.is_some())) || (s.read_mode == 2 && plan.shape == 3 && s.end.is_none());
+            let reads_all = plan.shape == 0 || plan.shape == 2 || (s.read_mode == 0 && !(plan.shape == 3 && s.fail_at_call && s.end.is_some())) || (s.read_mode == 2 && plan.shape == 3 && s.end.is_none() && s.ok_trailing_md.is_empty());
             if let Some(e) = &l.req_error {
                 v2(sim, "request-stream-error-at-handler", format!("{who}: handler's request stream failed: {e}"));
             } else if reads_all {
@@ -321,6 +321,17 @@ pub fn judge<M: SimMsg>(sim: &Sim, plan: &CallPlan, obs: &Observed, log: Option<
     }
     if let Some(Err(e)) = &obs.trailers {
         v2(sim, "trailers-call-failed", format!("{who}: trailers() failed after a clean end: {e}"));
+    }
+    if s.end.is_none() && !s.ok_trailing_md.is_empty() && obs.clean_end {
+        match &obs.trailers {
+            Some(Ok(Some(t))) => {
+                check_md_received(sim, &format!("{who} (trailing metadata of a successful stream)"), &s.ok_trailing_md, t);
+                if let Some(d) = gen::md_mismatch(&s.ok_trailing_md, t) {
+                    v2(sim, "trailing-metadata-differs", format!("{who}: trailing metadata of a stream that ended in OK: {d}"));
+                }
+            }
+            other => v2(sim, "trailing-metadata-lost", format!("{who}: the handler ended its stream in OK with trailing metadata {}, trailers() returned {:?}", gen::md_summary(&s.ok_trailing_md), other.as_ref().map(|r| r.as_ref().map(|o| o.is_some())))),
+        }
     }
 }
 
@@ -481,7 +492,11 @@ pub fn gen_plan(sim: &Sim, id: u64, shape: usize, max_msg: usize) -> CallPlan {
             sim.probe("trailers-only-response");
         }
     }
-    CallPlan {
+    let ok_trailing_md = if shape >= 2 && end.is_none() && sim.chance(1, 4) { gen_md(sim, 3, true) } else { vec![] };
+    if !ok_trailing_md.is_empty() {
+        sim.probe("ok-with-trailing-metadata");
+    }
+    let mut plan = CallPlan {
         id,
         shape,
         req_md: gen_md(sim, 5, true),
@@ -498,10 +513,13 @@ pub fn gen_plan(sim: &Sim, id: u64, shape: usize, max_msg: usize) -> CallPlan {
             read_mode: if shape == 1 { sim.pick(&[0u8, 0, 0, 1]) } else if shape == 3 { sim.pick(&[0u8, 1, 2]) } else { 0 },
             latency_us: 0,
             gap_us: 0,
+            ok_trailing_md: vec![],
         },
         req_src_pending: sim.pick(&[0u64, 0, 20, 70]),
         extra_polls: sim.range(0, 2) as u32,
-    }
+    };
+    plan.script.ok_trailing_md = ok_trailing_md;
+    plan
 }
 
 #[derive(Clone, Debug)]
